@@ -119,6 +119,11 @@ def _tl_case(draw):
         return draw(_ctx_chain())
     if draw(st.integers(0, 11)) == 0:
         return draw(_presolve_family())
+    if draw(st.integers(0, 15)) == 0:
+        # a mined solver-hard system (satisfiable), some of its rows moved to the context
+        terms, w, row = draw(gens.lp_hard_s())
+        k = draw(st.integers(0, len(terms) - 1))
+        return {"kind": "tl", "terms": terms[k:], "ctx": terms[:k] or None, "planted": ["lp-hard"], "numclass": "wide"}
     nv = draw(st.integers(1, 5))
     pool = P[:nv]
     numclass = draw(st.sampled_from(["small", "small", "small", "decimal", "wide"]))
